@@ -417,7 +417,7 @@ def e2e_eval(case, verbose=False):
     nslices = sum(1 for evs in files.values() for e in evs if e["ph"] == "B")
     extra = [[], [], ["-c", str(_REPO / "tests/test_data/sample_comp_log_ideal.txt")], ["--keep_prep"], ["-t"],
              ["--drop_globals"], ["-c", str(_REPO / "tests/test_data/sample_comp_log_ideal.txt"), "-t"], ["-R"],
-             ["-k"], ["--disable_tb"]][case.get("xi", nslices + len(files)) % 10]
+             ["-k"], ["--disable_tb"], ["--flow"]][case.get("xi", nslices + len(files)) % 11]
     with contextlib.redirect_stdout(io.StringIO()):
         r0 = stage.e2e(["--freq", "512", *extra], files)
         r1 = stage.e2e(["--freq", "512", "--comm_summarize_seq", *extra], files)
@@ -441,6 +441,13 @@ def e2e_eval(case, verbose=False):
         m = SEQ_RE.search(name) if "SenRdma" in name else None
         if m:
             peer = e["args"].get("Peer")
+            if peer is None and "--flow" in extra:
+                # with --flow the reference run itself exports the part's `Peer` under the unified key `Peers` (C01: a rename)
+                peer = e["args"].get("Peers")
+                if isinstance(peer, list):
+                    peer = peer[0] if len(peer) == 1 else None
+                elif isinstance(peer, str) and "," in peer:
+                    peer = None         # the runtime's own `Peers` string of a part without a `Peer`
             groups.setdefault((src[u], m.group(1)), []).append(
                 {"uid": u, "ts": Fraction(e["ts"]), "end": Fraction(e["ts"]) + Fraction(e["dur"]), "peer": None if peer is None else int(peer)})
         else:
